@@ -6,6 +6,7 @@ import (
 	"fmt"
 	"io"
 	"regexp"
+	"sync"
 
 	"github.com/logrusorgru/aurora"
 
@@ -26,29 +27,64 @@ type prefixedOutputDecorator struct {
 	t *task.Task
 	w *bufio.Writer
 
+	// stdout and stderr of a task share this decorator and are written from
+	// separate goroutines when a command is an external process
+	mu sync.Mutex
+
+	// streams[0] belongs to the decorator itself (Write); stream() adds more
+	streams []*prefixedStream
+}
+
+// prefixedStream is one output stream (stdout, stderr) of the decorated task
+type prefixedStream struct {
+	d *prefixedOutputDecorator
+
 	// end of the previous write that may be the beginning of an escape sequence
 	pending []byte
 }
 
 func newPrefixedOutputWriter(t *task.Task, w io.Writer) *prefixedOutputDecorator {
-	return &prefixedOutputDecorator{
+	d := &prefixedOutputDecorator{
 		t: t,
 		w: bufio.NewWriter(&lineWriter{t: t, dst: w}),
 	}
+	d.streams = []*prefixedStream{{d: d}}
+
+	return d
+}
+
+// stream returns a writer for one more output stream of the task. What is held
+// back at the end of a write belongs to that stream only
+func (d *prefixedOutputDecorator) stream() io.Writer {
+	d.mu.Lock()
+	defer d.mu.Unlock()
+
+	s := &prefixedStream{d: d}
+	d.streams = append(d.streams, s)
+
+	return s
 }
 
 func (d *prefixedOutputDecorator) Write(p []byte) (int, error) {
+	return d.streams[0].Write(p)
+}
+
+func (s *prefixedStream) Write(p []byte) (int, error) {
+	d := s.d
+	d.mu.Lock()
+	defer d.mu.Unlock()
+
 	n := len(p)
 
 	// Escape sequences are stripped line by line, so a sequence split across
 	// two writes would be stripped only in part. Keep a possibly unfinished
 	// sequence at the end of this write back until the next one (or the footer)
-	if len(d.pending) > 0 {
-		p = append(d.pending, p...)
-		d.pending = nil
+	if len(s.pending) > 0 {
+		p = append(s.pending, p...)
+		s.pending = nil
 	}
 	if i := bytes.LastIndexAny(p, "\u001B\u009B"); i >= 0 && len(p)-i <= 32 && ansiTailRegexp.Match(p[i:]) {
-		d.pending = append([]byte(nil), p[i:]...)
+		s.pending = append([]byte(nil), p[i:]...)
 		p = p[:i]
 	}
 
@@ -89,9 +125,15 @@ func (d *prefixedOutputDecorator) WriteHeader() error {
 }
 
 func (d *prefixedOutputDecorator) WriteFooter() error {
-	if len(d.pending) > 0 {
-		_, _ = d.w.Write(d.pending)
-		d.pending = nil
+	d.mu.Lock()
+	defer d.mu.Unlock()
+
+	for _, s := range d.streams {
+		if len(s.pending) > 0 {
+			_, _ = d.w.Write(s.pending)
+			_ = d.w.Flush()
+			s.pending = nil
+		}
 	}
 
 	err := d.w.Flush()
